@@ -171,7 +171,61 @@ func SolveAll(g *Gen, header string, results []*FnResult, outDir string, par int
 		}(i, j)
 	}
 	wg.Wait()
+	retryTimeouts(out, timeoutS)
 	return out
+}
+
+// retryTimeouts gives obligations on which every solver ran out of time a second chance: solver time depends on
+// the load of the machine, and a timeout must not be reported as a failed obligation just because sixteen
+// solver processes (or other jobs) were competing for the cores. At most 40 of them are re-run, four at a time,
+// with three times the timeout and all solvers raced. A genuine failure stays a failure; it only takes longer.
+func retryTimeouts(out []*SolveResult, timeoutS int) {
+	var idx []int
+	for i, r := range out {
+		if r != nil && r.Status == "timeout" {
+			idx = append(idx, i)
+		}
+	}
+	if len(idx) == 0 || len(idx) > 40 {
+		return
+	}
+	sem := make(chan struct{}, 4)
+	var wg sync.WaitGroup
+	for _, i := range idx {
+		wg.Add(1)
+		go func(sr *SolveResult) {
+			defer wg.Done()
+			sem <- struct{}{}
+			defer func() { <-sem }()
+			type res struct {
+				s    solverSpec
+				st   string
+				o    string
+				secs float64
+			}
+			ctx, cancel := context.WithCancel(context.Background())
+			defer cancel()
+			ch := make(chan res, len(solvers))
+			for _, s := range solvers {
+				go func(s solverSpec) {
+					st, o, secs := runSolverCtx(ctx, s, sr.File, 3*timeoutS)
+					ch <- res{s, st, o, secs}
+				}(s)
+			}
+			for range solvers {
+				r := <-ch
+				if ctx.Err() != nil && r.st != "unsat" && r.st != "sat" {
+					r.st = "cancelled"
+				}
+				sr.Tried = append(sr.Tried, fmt.Sprintf("retry-%s:%s:%.2fs", r.s.name, r.st, r.secs))
+				if r.st == "unsat" && sr.Status != "unsat" {
+					sr.Status, sr.Solver, sr.Seconds, sr.Output = r.st, r.s.name, r.secs, r.o
+					cancel()
+				}
+			}
+		}(out[i])
+	}
+	wg.Wait()
 }
 
 func sanitizeFile(s string) string {
